@@ -1235,6 +1235,11 @@ impl Ty {
                 },
             ) => found_uid == expected_uid,
             (Ty::EnumVariant { enum_uid, .. }, Ty::Enum { uid, .. }) => enum_uid == uid,
+            // enum variants have stricter autocasting rules than distincts:
+            // the only thing that fits into a variant is that exact variant.
+            // (without this the last arm would compare against the payload of the variant,
+            // and accept e.g. any struct with the same fields as the payload)
+            (_, Ty::EnumVariant { .. }) => false,
             (Ty::Nil, Ty::Optional { .. }) => true,
             (
                 Ty::Optional { sub_ty: found_sub },
